@@ -520,17 +520,19 @@ func (m *Memberlist) UpdateNode(timeout time.Duration) error {
 		}
 	}
 
-	// Get the existing node
+	// Get the existing node's address while holding the lock: aliveNode
+	// rewrites the record's fields under the write lock.
 	m.nodeLock.RLock()
 	state := m.nodeMap[m.config.Name]
+	addr, port := state.Addr, state.Port
 	m.nodeLock.RUnlock()
 
 	// Format a new alive message
 	a := alive{
 		Incarnation: m.nextIncarnation(),
 		Node:        m.config.Name,
-		Addr:        state.Addr,
-		Port:        state.Port,
+		Addr:        addr,
+		Port:        port,
 		Meta:        meta,
 		Vsn:         m.config.BuildVsnArray(),
 	}
